@@ -124,7 +124,7 @@ impl Vocab {
             "http://www.w3.org/XML/1998/namespace",
             "urn:a",
             "urn:b",
-            "urn:c",
+            "urn:c?a=1&b=<2>\"'\t3",
             "http://www.w3.org/1999/xhtml",
             "http://www.w3.org/1998/Math/MathML",
             "http://www.w3.org/2000/svg",
